@@ -25,8 +25,15 @@ def search(ck, tier, seed):
     # splines once more with all parameters zero: uniform bins whose interior segments are exactly linear next to curved edge
     # segments, so that one batch mixes the special-cased and the general branch of the inverses
     todo += [(dict(e, name=e["name"] + " [flat parameters]"), True) for e in catalogue.entries(tier) if e["kinks"]]
+    # normalisation layers that have never seen a training batch, straight in evaluation mode (a model evaluated before it is
+    # trained, or built for inference and not yet restored): no batch may serve as "initialisation data" there
+    todo += [(dict(e, name=e["name"] + " [never trained]"), "fresh") for e in catalogue.entries(tier)
+             if any(k_ in e["name"] for k_ in ("ActNorm", "BatchNorm", "Multiscale(Squeeze"))]
     for e, flat_params in todo:
-        t = attempt(catalogue.build, e, seed, torch.float64, False, flat_params)
+        if flat_params == "fresh":
+            t = attempt(catalogue.build, e, seed, torch.float64, False, False, True)
+        else:
+            t = attempt(catalogue.build, e, seed, torch.float64, False, flat_params)
         if t[0] != "ok":
             continue
         t = t[1]
@@ -55,10 +62,15 @@ def search(ck, tier, seed):
                 ck.case(("c12", e["name"], direction, vname), nontrivial=True)
                 ck.count(direction)
                 case = {"search": "batch", "entry": e["name"], "direction": direction, "inputs": vname, "seed": seed}
-                # rows one at a time (batch size one)
+                # rows one at a time (batch size one); for never-trained layers on ANOTHER never-used instance, rows before any batch
+                fn_rows = fn
+                if flat_params == "fresh":
+                    t_rows = attempt(catalogue.build, e, seed, torch.float64, False, False, True)
+                    if t_rows[0] == "ok":
+                        fn_rows = t_rows[1].forward if direction == "forward" else t_rows[1].inverse
                 for i in range(arg.shape[0]):
                     with torch.no_grad():
-                        r = attempt(fn, arg[i:i + 1], None if ctx is None else ctx[i:i + 1])
+                        r = attempt(fn_rows, arg[i:i + 1], None if ctx is None else ctx[i:i + 1])
                     if r[0] != "ok":
                         ck.finding("batch:single-row-fails:%s" % e["name"], "%s %s row %d: %s %s" % (e["name"], direction, i, r[1], r[2]), case)
                         break
